@@ -379,6 +379,11 @@ func beforeAfterToBox(element *utils.HTMLNode, pseudoType string, state *tree.Pa
 		logger.WarningLogger.Println(err)
 		return nil
 	}
+	if box.Box().Style.GetFloat() == "footnote" {
+		// only elements are moved to the footnote area
+		logger.WarningLogger.Printf("float: footnote is not supported on ::%s: ignored", pseudoType)
+		box.Box().Style.SetFloat("none")
+	}
 
 	UpdateCounters(state, style)
 
